@@ -205,10 +205,17 @@ def bbox(mask):
 def sampling(draw, in_shape, per_axis=True):
     """Optical sampling: wavelength, focal length, input/output pixel scales and
     oversample chosen so that alpha*n lands in [0.05, 1.5] per axis."""
-    wl = draw(finite(0.3e-6, 2e-6))
-    z = draw(finite(0.5, 50.0))
+    if draw(st.integers(0, 5)):
+        wl = draw(finite(0.3e-6, 2e-6))
+        z = draw(finite(0.5, 50.0))
+        dx_r = draw(pos_log(1e-4, 1e-1))
+    else:
+        # the same dimensionless geometry expressed with unusual physical magnitudes (X-ray to sub-millimetre
+        # wavelengths, micro-optics to long focal lengths, nanometre to metre sampling)
+        wl = draw(pos_log(1e-9, 1e-3))
+        z = draw(pos_log(1e-3, 1e3))
+        dx_r = draw(pos_log(1e-8, 1.0))
     os_ = draw(st.integers(1, 4))
-    dx_r = draw(pos_log(1e-4, 1e-1))
     dx_c = dx_r * (draw(finite(0.5, 2.0)) if per_axis and draw(st.booleans()) else 1.0)
     q_r = draw(finite(0.05, 1.5))      # alpha * n
     q_c = q_r * (draw(finite(0.5, 2.0)) if per_axis and draw(st.booleans()) else 1.0)
@@ -263,3 +270,70 @@ HUGE = [255, 256, 257, 300, 511, 512, 513, 600, 700]
 def big_dim(pool=None):
     """axis lengths at and around the usual implementation thresholds (64, 128, 256, 512)"""
     return st.sampled_from(pool or BIG)
+
+
+# ---------------------------------------------------------------------------------------------------
+# value forms of a mask whose membership is "non-zero" (lentil casts such masks with dtype=bool)
+
+MASK_FORMS = ["int01", "int01", "bool", "float01", "label", "weights", "negative", "mixed_sign"]
+
+
+def mask_forms():
+    return st.sampled_from(MASK_FORMS)
+
+
+def apply_mask_form(mask01, form, seed=0):
+    """the same support expressed with other non-zero values (labels, weights, negative or mixed-sign numbers)"""
+    sup = np.asarray(mask01) != 0
+    rng = np.random.default_rng(seed)
+    if form in (None, "int01"):
+        return sup.astype(int)
+    if form == "bool":
+        return sup.copy()
+    if form == "float01":
+        return sup.astype(float)
+    if form == "label":
+        return sup.astype(int) * int(rng.integers(2, 9))
+    if form == "weights":
+        return np.where(sup, rng.uniform(0.05, 1.0, size=sup.shape), 0.0)
+    if form == "negative":
+        return -sup.astype(int) if seed % 2 else -np.where(sup, rng.uniform(0.05, 1.0, size=sup.shape), 0.0)
+    if form == "mixed_sign":
+        return np.where(sup, rng.choice([-1.0, 1.0, -0.5, 2.0], size=sup.shape), 0.0)
+    raise ValueError(form)
+
+
+# ---------------------------------------------------------------------------------------------------
+# numeric types of scalar parameters (value-preserving: falls back to the plain Python number when the value is
+# not exactly representable in the requested type)
+
+SCALAR_TYPES = ["python", "python", "python", "uint8", "int8", "int16", "int32", "int64", "float32", "float64", "array0d",
+                "uint16"]
+
+
+def scalar_types():
+    return st.sampled_from(SCALAR_TYPES)
+
+
+def typed_scalar(v, kind):
+    if kind in (None, "python"):
+        return v
+    if kind == "array0d":
+        return np.array(v)
+    dt = np.dtype(kind)
+    if dt.kind in "iu":
+        if float(v) != int(v):
+            return v
+        info = np.iinfo(dt)
+        if not info.min <= int(v) <= info.max:
+            return v
+        return dt.type(int(v))
+    t = dt.type(v)
+    return t if float(t) == float(v) else v
+
+INT_TYPES = ["python", "python", "int64", "int32", "int16", "uint8", "uint16", "int8", "array0d"]
+
+
+def typed_int(v, selector):
+    """v as one of INT_TYPES chosen by an integer selector already present in the case (value-preserving)"""
+    return typed_scalar(int(v), INT_TYPES[int(selector) % len(INT_TYPES)])
